@@ -13,6 +13,8 @@ All theorems are for arbitrary element values, lengths, duplicates and `Int` arg
 import Golib.Proof.C14ArenaDst
 import Golib.Proof.C14FlexFast
 import Golib.Proof.C14FlexAlias
+import Golib.Proof.C14Wrap
+import Golib.Proof.C14Trans
 
 namespace Golib.C14
 
@@ -277,6 +279,87 @@ theorem c14_flex_prepend_alias (f : Flex) (a n1 : Nat) (h : f.Inv) (ha : a + n1 
     ∃ f', f.prependWin a n1 = some f' ∧ f'.Inv ∧ f'.values = (f.mem.drop a).take n1 ++ f.values :=
   prependWin_spec f a n1 h ha
 
+/-! ### wave 8 B: the index arithmetic on the machine's `int`
+
+Every theorem above computes with unbounded `Int`.  The `G` models (`Model/C14Wrap.lean`) are the same
+code with the `int` operations `+ - *` as a PARAMETER `o : IntOps`; `o.Sound` says only that `o` is
+right whenever the exact result fits in 64 bits — on overflow it may wrap, saturate or return
+anything.  `IntOps.wrap64` (`BitVec 64`, two's complement) is the machine Go runs on and the twin the
+oracle executes; `IntOps.poison p` returns the arbitrary value `p` for every overflowed result.
+"For every Sound `o` the `G` model equals the unbounded model" therefore says: no sum, difference
+or product that can leave the `int` range ever reaches a comparison, an index or a slice bound —
+the code as written clamps before it adds — and every theorem above is a theorem about what the
+64-bit code computes, for ALL `int` arguments (`MaxInt`, `MinInt`, `MaxInt - len`, …). -/
+
+/-- The 64-bit two's-complement machine is Sound; so are exact arithmetic and every poisoned machine. -/
+theorem c14_int_machine_sound : IntOps.wrap64.Sound ∧ IntOps.exact.Sound ∧ ∀ p, (IntOps.poison p).Sound :=
+  ⟨wrap64_sound, exact_sound, poison_sound⟩
+
+/-- **`Copy` never lets a sum wrap.**  For every `int` start and length (negative, oversized,
+`MaxInt`, `MinInt`) and every slice whose length is an `int`: the machine-integer model equals the
+unbounded one (`l - start` is formed after `start ∈ [0, l)`, `start + length` after
+`length ∈ [1, l - start]`), hence `c14_copy_fresh` holds of the 64-bit code. -/
+theorem c14_copy_nowrap (o : IntOps) (ho : o.Sound) (s : List Int) (start length : Int)
+    (hl : (s.length : Int) ≤ maxInt) (hs : IsInt start) (hn : IsInt length) :
+    copyG o s start length = copy s start length :=
+  copyG_eq o ho s start length hl hs hn
+
+/-- **The guard is exact** (the change class of seed C14-I: the END is clamped, so `start + length`
+is formed BEFORE it is compared).  Over unbounded integers that text is the same function as
+`Copy` — which is why no unbounded model can tell them apart; on a Sound machine it is `Copy`
+exactly as long as `max start 0 + length` fits; on the 64-bit machine it PANICS (negative end) for
+every start inside the slice and every length beyond `MaxInt - start`, e.g. `Copy(s, 1, MaxInt)`. -/
+theorem c14_copy_sum_first_guard (s : List Int) (start length : Int)
+    (hl : (s.length : Int) ≤ maxInt) (hs : IsInt start) (hn : IsInt length) :
+    copyEndG .exact s start length = copy s start length ∧
+    (∀ o : IntOps, o.Sound → (if start < 0 then 0 else start) + length ≤ maxInt →
+      copyEndG o s start length = copy s start length) ∧
+    (start < s.length → (if start < 0 then 0 else start) + length > maxInt →
+      copyEndG .wrap64 s start length = none ∧ copyG .wrap64 s start length = copy s start length) :=
+  ⟨copyEndG_exact s start length,
+   fun o ho hfit => copyEndG_eq_of_fits o ho s start length hs hn hfit,
+   fun hlt hover => ⟨copyEndG_wrap64_panics s start length hl hlt hn hover,
+     copyG_eq _ wrap64_sound s start length hl hs hn⟩⟩
+
+/-- **`Remove`**: `len(s) - 1` and `index + 1` (formed only when `index < last`) cannot wrap for any
+`int` index; the machine-integer model equals the unbounded one (`c14_remove`). -/
+theorem c14_remove_nowrap (o : IntOps) (ho : o.Sound) (nil1 : Bool) (s : List Int) (index : Int)
+    (hl : (s.length : Int) ≤ maxInt) (hi : IsInt index) :
+    removeG o nil1 s index = remove nil1 s index :=
+  removeG_eq o ho nil1 s index hl hi
+
+/-- **`Chunk` / `ChunkProcess`**: for every `int` chunk size — the loop counter `i++`, the cursor
+`start + chunkSize` (≤ `n·chunkSize ≤ len`) and the capacity `n + 1` of `make` cannot wrap, the loop
+ends by its own condition `i < n`, and the machine-integer models equal the unbounded ones
+(`c14_chunk_concat`, `c14_chunk_sizes`, `c14_chunkprocess`).  Exact guard of `Chunk`: `len < MaxInt`
+(with `len = MaxInt`, `chunkSize = 1` the capacity `n + 1` of `make` would wrap; no such slice of
+non-zero-size elements exists). -/
+theorem c14_chunk_nowrap (o : IntOps) (ho : o.Sound) (len : Nat) (chunkSize : Int) (failAt : Nat)
+    (hc : IsInt chunkSize) :
+    ((len : Int) < maxInt → chunkG o len chunkSize = chunk len chunkSize) ∧
+    ((len : Int) ≤ maxInt → chunkProcessG o len chunkSize failAt = chunkProcess len chunkSize failAt) :=
+  ⟨fun hl => chunkG_eq o ho len chunkSize hl hc, fun hl => chunkProcessG_eq o ho len chunkSize failAt hl hc⟩
+
+/-- **FlexSlice indices**: `Get` and `SubSlice` form no sum of their arguments at all (`Flex.get`,
+`subSlice` contain comparisons only); `Remove(index)`, `Pop` (`len - 1`), `Shift`, `SubSlice` followed by
+`shrink` (`cap / 4`, `len * 2` after `len ≤ cap/4`) on the machine's integers equal the unbounded
+model for every `int` index and every state with `len ≤ cap ≤ MaxInt` (`c14_flex_refines`). -/
+theorem c14_flex_nowrap (o : IntOps) (ho : o.Sound) (f : Flex) (index a b : Int)
+    (hinv : f.Inv) (hc : (f.cap : Int) ≤ maxInt) (hi : IsInt index) :
+    f.removeG o index = f.remove index ∧ f.popG o = f.pop ∧ f.shiftG o = f.shift ∧
+    f.subSliceG o a b = f.subSlice a b :=
+  ⟨flex_removeG_eq o ho f index hinv hc hi, flex_popG_eq o ho f hinv hc, flex_shiftG_eq o ho f hinv hc,
+   flex_subSliceG_eq o ho f a b hc⟩
+
+/-- **`Prepend`: the exact guard.**  `n1 + n2` and `2 * c` are sums of LENGTHS, not of arguments; they
+are right, and `Prepend` on the machine's integers is the unbounded `Flex.prepend` without a panic,
+whenever `len(v) + len ≤ MaxInt` and `2·cap ≤ MaxInt` — true of every slice the runtime can
+allocate (a `[]T` with `cap ≥ 2^62` and non-zero-size `T` exceeds the address space). -/
+theorem c14_flex_prepend_guard (o : IntOps) (ho : o.Sound) (f : Flex) (v : List Int)
+    (hg1 : (v.length : Int) + (f.len : Int) ≤ maxInt) (hg2 : 2 * (f.cap : Int) ≤ maxInt) :
+    f.prependG o v = some (f.prepend v) :=
+  flex_prependG_eq o ho f v hg1 hg2
+
 /-! ### non-vacuity -/
 
 /-- dst = s1[:0] on a slice with duplicates: the result overwrites the front of `s1` -/
@@ -314,5 +397,51 @@ example : diffInPlaceA intEq [9, 3, 7, 5, 7, 9] ⟨1, 4, 4⟩ ⟨2, 2, 2⟩ = so
 example : (flexRun goGrow (mkFlex [] 2)
     [.append [1, 2, 3], .prepend [4], .prepend [5, 6, 7, 8, 9], .append [10], .shift, .shift, .shift, .shift, .shift,
      .pop, .get 0]).map (fun r => (r.1.values, r.1.cap)) = some ([4, 1, 2, 3], 8) := by decide
+
+/-- wave 8 B: the 64-bit machine really wraps (so `Sound` is not "never overflows"), the arguments of
+seed C14-I meet the hypotheses of `c14_copy_nowrap` / `c14_copy_sum_first_guard`, and on them the code as
+written answers `s[1:]` while the sum-first text panics on the 64-bit machine and not on the exact one -/
+example : IntOps.wrap64.add 1 maxInt = minInt ∧ IntOps.wrap64.sub minInt 1 = maxInt ∧
+    IntOps.wrap64.mul 2 4611686018427387904 = minInt ∧ IsInt 1 ∧ IsInt maxInt ∧ IsInt minInt ∧
+    ((([1, 2, 3] : List Int).length : Int) ≤ maxInt) ∧ (1 : Int) + maxInt > maxInt ∧
+    copyG .wrap64 [1, 2, 3] 1 maxInt = some (.fresh [2, 3]) ∧
+    copyEndG .wrap64 [1, 2, 3] 1 maxInt = none ∧ copyEndG .exact [1, 2, 3] 1 maxInt = some (.fresh [2, 3]) ∧
+    copyEndG (.poison 2) [1, 2, 3] 1 maxInt = some (.fresh [2]) := by decide
+/-- int-edge arguments through the 64-bit twins of Remove / Chunk / ChunkProcess / FlexSlice -/
+example : removeG .wrap64 false [1, 2, 3] maxInt = some ([1, 2, 3], ⟨false, [1, 2, 3]⟩, 0, false) ∧
+    removeG .wrap64 false [1, 2, 3] minInt = some ([1, 2, 3], ⟨false, [1, 2, 3]⟩, 0, false) ∧
+    removeG .wrap64 false [1, 2, 3] 1 = some ([1, 3, 0], ⟨false, [1, 3]⟩, 2, true) := by decide
+example : chunkG .wrap64 3 maxInt = some (some [(0, 3)]) ∧ chunkG .wrap64 3 minInt = some (some [(0, 3)]) ∧
+    chunkG .wrap64 5 2 = some (some [(0, 2), (2, 2), (4, 1)]) ∧
+    chunkProcessG .wrap64 5 2 2 = some ([(0, 2), (2, 2)], true) := by decide
+example :
+    (Flex.removeG .wrap64 ⟨[1, 2, 3, 0], 3⟩ maxInt).map (fun r => (r.1.values, r.2)) = some ([1, 2, 3], 0, false) ∧
+    (Flex.popG .wrap64 ⟨[1, 2, 3, 0], 3⟩).map (fun r => (r.1.values, r.2)) = some ([1, 2], 3, true) ∧
+    (Flex.subSliceG .wrap64 ⟨[1, 2, 3, 0], 3⟩ 1 maxInt).map Flex.values = some [2, 3] ∧
+    (Flex.prependG .wrap64 ⟨[1, 2, 3, 0], 3⟩ [7, 8]).map Flex.values = some [7, 8, 1, 2, 3] := by decide
+
+/-! ### Regenerated tie (wave 8): `slicez.Index` / `slicez.Contains` translated by `go2lean`
+
+`Golib.Gen.Trans.C14.Index` / `Contains` are regenerated from the tree under verification on
+every run (`Golib/Gen/TransC14.lean`, generic in the element type; the model's element type is
+`Int`). -/
+
+/-- TIE: the translated `Index` (a `range` loop with an early `return i`) equals the model's
+`index` on every slice and value: first position holding `v`, else `-1`; no panic, fuel
+`len(s) + 1` suffices. -/
+theorem c14_trans_Index (s : List Int) (v : Int) :
+    Golib.Gen.Trans.C14.Index s v = .ok (index s v) :=
+  trans_index s v
+
+/-- TIE: the translated `Contains` (`Index(s, v) >= 0`) equals the model's `contains`. -/
+theorem c14_trans_Contains (s : List Int) (v : Int) :
+    Golib.Gen.Trans.C14.Contains s v = .ok (contains s v) :=
+  trans_contains s v
+
+/-- Non-vacuity: the first of two occurrences is reported; an absent value gives -1 / false. -/
+example : Golib.Gen.Trans.C14.Index [5, 7, 9, 7] (7 : Int) = .ok 1 ∧
+    Golib.Gen.Trans.C14.Index [5, 7, 9, 7] (8 : Int) = .ok (-1) ∧
+    Golib.Gen.Trans.C14.Contains [5, 7, 9, 7] (8 : Int) = .ok false := by
+  refine ⟨?_, ?_, ?_⟩ <;> decide +kernel
 
 end Golib.C14
